@@ -191,6 +191,34 @@ func calleeName(c *ssa.CallCommon) string {
 
 // funcName is the package-qualified, instance-free name used in terms.
 func funcName(f *ssa.Function) string {
+	if a, ok := funcAlias[f]; ok {
+		return a
+	}
+	if par := f.Parent(); par != nil {
+		// a closure of a renamed function: Parent$n under the name the rules know
+		top := par
+		for top.Parent() != nil {
+			top = top.Parent()
+		}
+		if a, ok := funcAlias[top]; ok {
+			return a + strings.TrimPrefix(funcNameRaw(f), funcNameRaw(top))
+		}
+	}
+	return funcNameRaw(f)
+}
+
+// fnShort: the bare name of a function as the rules know it (the pinned tree's name for a renamed one).
+func fnShort(f *ssa.Function) string {
+	if f == nil {
+		return ""
+	}
+	if a, ok := funcAlias[f]; ok {
+		return a[strings.LastIndex(a, ".")+1:]
+	}
+	return f.Name()
+}
+
+func funcNameRaw(f *ssa.Function) string {
 	s := f.String()
 	s = strings.ReplaceAll(s, modPath+"/", "")
 	s = strings.ReplaceAll(s, modPath+".", "")
